@@ -97,7 +97,7 @@ def build(reg):
         ensures=[("no_prefix_everything", "implies(var_prefix == '', result[0] == var_list and result[1] == rename_list)"),
                  ("prefix_exact", "implies(var_prefix != '', result[0] == keepfold(var_list, rename_list, var_prefix, len(var_list), 0))"),
                  ("renames_aligned", "implies(var_prefix != '', result[1] == keepfold(var_list, rename_list, var_prefix, len(var_list), 1))")],
-        loops={3: LoopSpec("for (var, rename) in zip(var_list, rename_list)", index="_k", invariants=[
+        loops={5: LoopSpec("for (var, rename) in zip(var_list, rename_list)", index="_k", invariants=[
             ("objs", "tmp_list == keepfold(var_list, rename_list, var_prefix, _k, 0)"),
             ("renames", "tmp_rename == keepfold(var_list, rename_list, var_prefix, _k, 1)")])},
         short="serve_autocomplete.get_candidates", nested_in=f"{LS}.serve_autocomplete",
